@@ -13,12 +13,12 @@ Executable model of the colour conversion code of Rich (property C18):
   computation of the saturation test falls on the other side of `0.1` are the *parameter*
   `Cfg.satExc`, validated exhaustively by the correspondence on every run.
 
-Everything Python can raise is an `Except PyErr` branch.  Core Lean only.
+Everything Python can raise is an `Except ColorErr` branch.  Core Lean only.
 -/
 namespace RichModel
 
 /-- The Python exceptions the modelled colour code can raise. -/
-inductive PyErr where
+inductive ColorErr where
   | assertionError   -- `assert self.number is not None`, `assert self.triplet is not None`, …
   | indexError       -- `EIGHT_BIT_PALETTE[self.number]` out of range
   | valueError       -- `min()` of an empty palette
@@ -111,13 +111,13 @@ def minIndex : List Nat → Option Nat
 
 /-- `Palette.match(color)`.  `sqrt` is strictly increasing on the integers that occur (validated),
 so comparing radicands is comparing distances. -/
-def paletteMatch (pal : List Triplet) (c : Triplet) : Except PyErr Nat :=
+def paletteMatch (pal : List Triplet) (c : Triplet) : Except ColorErr Nat :=
   match minIndex (pal.map (colorDist2 c)) with
   | none => .error .valueError
   | some i => .ok i
 
 /-- `Palette.__getitem__` → `self._colors[number]` for `number ≥ 0`. -/
-def paletteGet (pal : List Triplet) (n : Nat) : Except PyErr Triplet :=
+def paletteGet (pal : List Triplet) (n : Nat) : Except ColorErr Triplet :=
   match pal[n]? with
   | some t => .ok t
   | none => .error .indexError
@@ -134,12 +134,12 @@ def Color.system (c : Color) : ColorSystem :=
   | .windows => .windows
 
 /-- `assert x is not None`. -/
-def assertSome {α : Type} : Option α → Except PyErr α
+def assertSome {α : Type} : Option α → Except ColorErr α
   | some a => .ok a
   | none => .error .assertionError
 
 /-- `Color.get_truecolor(theme=None, foreground)` with the default terminal theme. -/
-def getTruecolor (P : Palettes) (c : Color) (foreground : Bool) : Except PyErr Triplet :=
+def getTruecolor (P : Palettes) (c : Color) (foreground : Bool) : Except ColorErr Triplet :=
   match c.type with
   | .truecolor => assertSome c.triplet
   | .eightBit => do let n ← assertSome c.number; paletteGet P.eightBit n
@@ -151,7 +151,7 @@ def getTruecolor (P : Palettes) (c : Color) (foreground : Bool) : Except PyErr T
     | none => .ok (if foreground then P.themeForeground else P.themeBackground)
 
 /-- `Color.get_ansi_codes(foreground)`: the SGR parameters, each a decimal number (`str(int)`). -/
-def getAnsiCodes (c : Color) (foreground : Bool) : Except PyErr (List Nat) :=
+def getAnsiCodes (c : Color) (foreground : Bool) : Except ColorErr (List Nat) :=
   match c.type with
   | .default => .ok [if foreground then 39 else 49]
   | .windows => do
@@ -202,7 +202,7 @@ def toEightBitNumber (exc : List (Nat × Nat)) (t : Triplet) : Nat :=
     16 + 36 * cubeCoord t.red + 6 * cubeCoord t.green + cubeCoord t.blue
 
 /-- `Color.downgrade(system)` (color.py:470-521), statement by statement. -/
-def downgrade (cfg : Cfg) (P : Palettes) (c : Color) (system : ColorSystem) : Except PyErr Color :=
+def downgrade (cfg : Cfg) (P : Palettes) (c : Color) (system : ColorSystem) : Except ColorErr Color :=
   -- `if self.type == ColorType.DEFAULT or self.type == system: return self`  (IntEnum: compared as ints)
   if c.type = .default ∨ c.type.toNat = system.toNat then .ok c
   else if system = .eightBit ∧ c.system = .truecolor then do
